@@ -94,6 +94,9 @@ class FilterExpression(Expression):
 
         if isinstance(expression, PrefixExpression):
             operand = self._canonical_string(expression.right, PRECEDENCE_PREFIX)
+            if isinstance(expression.right, (ComparisonExpression, PrefixExpression)):
+                # `!a == 1` and `!!a` are not valid; keep the parentheses.
+                operand = f"({operand})"
             expr = f"!{operand}"
             return f"({expr})" if parent_precedence > PRECEDENCE_PREFIX else expr
 
